@@ -61,3 +61,189 @@ Theorem C14_with_flag_shares_hash :
          forall s : state, hashf (impl_of (with_flag d k)) s = hashf (impl_of d) s.
 Proof. exact @with_flag_shares_hash. Qed.
 Print Assumptions C14_with_flag_shares_hash.
+
+From V Require Import Base ObjectModelFull ObjectModelInst InstShared.
+
+(* the RICHER object machine (heap of graph objects with cached inverted copy and cached find_path ball, derived copies sharing the hasher/encoder part, BfsResult objects with five dependent caches): after ANY operation sequence every operation on any reachable object answers as on a fresh object with the same immutable part *)
+Theorem C14_history_independent_full :
+  forall (RI NV H2I EL VN AS AD SP NE : Type) (mk_nv : RI -> result NV)
+           (mk_h2i : RI -> NV -> result H2I) (mk_el : RI -> H2I -> result EL)
+           (mk_vn : RI -> result VN) (mk_as : RI -> result AS) (mk_adj : RI -> NV -> EL -> AD)
+           (mk_sparse : RI -> EL -> NV -> SP) (mk_named : RI -> VN -> EL -> NE)
+           (S D Key Ball Q A P R BArgs : Type) (key_eqb : Key -> Key -> bool),
+         (forall a b : Key, key_eqb a b = true <-> a = b) ->
+         forall (inv_defn : D -> D) (inv_closed : imm S D -> bool) (mk_ball : imm S D -> Key -> Ball)
+           (p_depth : imm S D -> P -> nat) (pure_op : imm S D -> list (imm S D) -> P -> R)
+           (fp_depth : imm S D -> Key -> Q -> nat)
+           (answer : imm S D -> imm S D -> list (imm S D) -> Ball -> Q -> A)
+           (mk_res : imm S D -> BArgs -> RI) (i : imm S D) (ops : list (op D Key Q P BArgs))
+           (h : nat) (j : imm S D) (g : gop D Key Q P BArgs),
+         imm_at RI NV H2I EL VN AS S D Key Ball
+           (run RI NV H2I EL VN AS AD SP NE mk_nv mk_h2i mk_el mk_vn mk_as mk_adj mk_sparse mk_named
+              S D Key Ball Q A P R BArgs key_eqb inv_defn inv_closed mk_ball p_depth pure_op fp_depth
+              answer mk_res (init RI NV H2I EL VN AS S D Key Ball i) ops) h = 
+         Some j ->
+         view RI NV H2I EL VN AS AD SP NE S D Key Ball A R
+           (step RI NV H2I EL VN AS AD SP NE mk_nv mk_h2i mk_el mk_vn mk_as mk_adj mk_sparse mk_named
+              S D Key Ball Q A P R BArgs key_eqb inv_defn inv_closed mk_ball p_depth pure_op fp_depth
+              answer mk_res
+              (run RI NV H2I EL VN AS AD SP NE mk_nv mk_h2i mk_el mk_vn mk_as mk_adj mk_sparse
+                 mk_named S D Key Ball Q A P R BArgs key_eqb inv_defn inv_closed mk_ball p_depth
+                 pure_op fp_depth answer mk_res (init RI NV H2I EL VN AS S D Key Ball i) ops)
+              (OnObj h g)) =
+         view RI NV H2I EL VN AS AD SP NE S D Key Ball A R
+           (step RI NV H2I EL VN AS AD SP NE mk_nv mk_h2i mk_el mk_vn mk_as mk_adj mk_sparse mk_named
+              S D Key Ball Q A P R BArgs key_eqb inv_defn inv_closed mk_ball p_depth pure_op fp_depth
+              answer mk_res (init RI NV H2I EL VN AS S D Key Ball j) (OnObj 0 g)) /\
+         view RI NV H2I EL VN AS AD SP NE S D Key Ball A R
+           (step RI NV H2I EL VN AS AD SP NE mk_nv mk_h2i mk_el mk_vn mk_as mk_adj mk_sparse mk_named
+              S D Key Ball Q A P R BArgs key_eqb inv_defn inv_closed mk_ball p_depth pure_op fp_depth
+              answer mk_res
+              (run RI NV H2I EL VN AS AD SP NE mk_nv mk_h2i mk_el mk_vn mk_as mk_adj mk_sparse
+                 mk_named S D Key Ball Q A P R BArgs key_eqb inv_defn inv_closed mk_ball p_depth
+                 pure_op fp_depth answer mk_res (init RI NV H2I EL VN AS S D Key Ball i) ops)
+              (OnObj h g)) =
+         spec_gop RI NV H2I EL VN AS AD SP NE S D Key Ball Q A P R BArgs inv_defn inv_closed mk_ball
+           p_depth pure_op fp_depth answer mk_res j g.
+Proof. exact @history_independent_full. Qed.
+Print Assumptions C14_history_independent_full.
+
+(* no operation sequence changes the immutable part of any graph or result object, origin included *)
+Theorem C14_immutable_parts_never_change :
+  forall (RI NV H2I EL VN AS AD SP NE : Type) (mk_nv : RI -> result NV)
+           (mk_h2i : RI -> NV -> result H2I) (mk_el : RI -> H2I -> result EL)
+           (mk_vn : RI -> result VN) (mk_as : RI -> result AS) (mk_adj : RI -> NV -> EL -> AD)
+           (mk_sparse : RI -> EL -> NV -> SP) (mk_named : RI -> VN -> EL -> NE)
+           (S D Key Ball Q A P R BArgs : Type) (key_eqb : Key -> Key -> bool),
+         (forall a b : Key, key_eqb a b = true <-> a = b) ->
+         forall (inv_defn : D -> D) (inv_closed : imm S D -> bool) (mk_ball : imm S D -> Key -> Ball)
+           (p_depth : imm S D -> P -> nat) (pure_op : imm S D -> list (imm S D) -> P -> R)
+           (fp_depth : imm S D -> Key -> Q -> nat)
+           (answer : imm S D -> imm S D -> list (imm S D) -> Ball -> Q -> A)
+           (mk_res : imm S D -> BArgs -> RI) (i : imm S D) (ops1 ops2 : list (op D Key Q P BArgs)),
+         (forall (h : nat) (j : imm S D),
+          imm_at RI NV H2I EL VN AS S D Key Ball
+            (run RI NV H2I EL VN AS AD SP NE mk_nv mk_h2i mk_el mk_vn mk_as mk_adj mk_sparse mk_named
+               S D Key Ball Q A P R BArgs key_eqb inv_defn inv_closed mk_ball p_depth pure_op
+               fp_depth answer mk_res (init RI NV H2I EL VN AS S D Key Ball i) ops1) h = 
+          Some j ->
+          imm_at RI NV H2I EL VN AS S D Key Ball
+            (run RI NV H2I EL VN AS AD SP NE mk_nv mk_h2i mk_el mk_vn mk_as mk_adj mk_sparse mk_named
+               S D Key Ball Q A P R BArgs key_eqb inv_defn inv_closed mk_ball p_depth pure_op
+               fp_depth answer mk_res (init RI NV H2I EL VN AS S D Key Ball i) 
+               (ops1 ++ ops2)) h = Some j) /\
+         (forall (r : nat) (ri : RI),
+          rimm_at RI NV H2I EL VN AS S D Key Ball
+            (run RI NV H2I EL VN AS AD SP NE mk_nv mk_h2i mk_el mk_vn mk_as mk_adj mk_sparse mk_named
+               S D Key Ball Q A P R BArgs key_eqb inv_defn inv_closed mk_ball p_depth pure_op
+               fp_depth answer mk_res (init RI NV H2I EL VN AS S D Key Ball i) ops1) r = 
+          Some ri ->
+          rimm_at RI NV H2I EL VN AS S D Key Ball
+            (run RI NV H2I EL VN AS AD SP NE mk_nv mk_h2i mk_el mk_vn mk_as mk_adj mk_sparse mk_named
+               S D Key Ball Q A P R BArgs key_eqb inv_defn inv_closed mk_ball p_depth pure_op
+               fp_depth answer mk_res (init RI NV H2I EL VN AS S D Key Ball i) 
+               (ops1 ++ ops2)) r = Some ri) /\
+         imm_at RI NV H2I EL VN AS S D Key Ball
+           (run RI NV H2I EL VN AS AD SP NE mk_nv mk_h2i mk_el mk_vn mk_as mk_adj mk_sparse mk_named
+              S D Key Ball Q A P R BArgs key_eqb inv_defn inv_closed mk_ball p_depth pure_op fp_depth
+              answer mk_res (init RI NV H2I EL VN AS S D Key Ball i) (ops1 ++ ops2)) 0 = 
+         Some i.
+Proof. exact @immutable_parts_never_change. Qed.
+Print Assumptions C14_immutable_parts_never_change.
+
+(* whole sessions (invalid handles included): the trace equals the trace of the pure specification *)
+Theorem C14_session_spec :
+  forall (RI NV H2I EL VN AS AD SP NE : Type) (mk_nv : RI -> result NV)
+           (mk_h2i : RI -> NV -> result H2I) (mk_el : RI -> H2I -> result EL)
+           (mk_vn : RI -> result VN) (mk_as : RI -> result AS) (mk_adj : RI -> NV -> EL -> AD)
+           (mk_sparse : RI -> EL -> NV -> SP) (mk_named : RI -> VN -> EL -> NE)
+           (S D Key Ball Q A P R BArgs : Type) (key_eqb : Key -> Key -> bool),
+         (forall a b : Key, key_eqb a b = true <-> a = b) ->
+         forall (inv_defn : D -> D) (inv_closed : imm S D -> bool) (mk_ball : imm S D -> Key -> Ball)
+           (p_depth : imm S D -> P -> nat) (pure_op : imm S D -> list (imm S D) -> P -> R)
+           (fp_depth : imm S D -> Key -> Q -> nat)
+           (answer : imm S D -> imm S D -> list (imm S D) -> Ball -> Q -> A)
+           (mk_res : imm S D -> BArgs -> RI) (i : imm S D) (ops : list (op D Key Q P BArgs)),
+         trace RI NV H2I EL VN AS AD SP NE mk_nv mk_h2i mk_el mk_vn mk_as mk_adj mk_sparse mk_named S
+           D Key Ball Q A P R BArgs key_eqb inv_defn inv_closed mk_ball p_depth pure_op fp_depth
+           answer mk_res (init RI NV H2I EL VN AS S D Key Ball i) ops =
+         spec_trace RI NV H2I EL VN AS AD SP NE mk_nv mk_h2i mk_el mk_vn mk_as mk_adj mk_sparse
+           mk_named S D Key Ball Q A P R BArgs key_eqb inv_defn inv_closed mk_ball p_depth pure_op
+           fp_depth answer mk_res (init RI NV H2I EL VN AS S D Key Ball i) ops.
+Proof. exact @session_spec. Qed.
+Print Assumptions C14_session_spec.
+
+(* every object reachable by any sequence of copies has the origin's shared (hasher, encoder) part *)
+Theorem C14_copies_share :
+  forall (RI NV H2I EL VN AS AD SP NE : Type) (mk_nv : RI -> result NV)
+           (mk_h2i : RI -> NV -> result H2I) (mk_el : RI -> H2I -> result EL)
+           (mk_vn : RI -> result VN) (mk_as : RI -> result AS) (mk_adj : RI -> NV -> EL -> AD)
+           (mk_sparse : RI -> EL -> NV -> SP) (mk_named : RI -> VN -> EL -> NE)
+           (S D Key Ball Q A P R BArgs : Type) (key_eqb : Key -> Key -> bool),
+         (forall a b : Key, key_eqb a b = true <-> a = b) ->
+         forall (inv_defn : D -> D) (inv_closed : imm S D -> bool) (mk_ball : imm S D -> Key -> Ball)
+           (p_depth : imm S D -> P -> nat) (pure_op : imm S D -> list (imm S D) -> P -> R)
+           (fp_depth : imm S D -> Key -> Q -> nat)
+           (answer : imm S D -> imm S D -> list (imm S D) -> Ball -> Q -> A)
+           (mk_res : imm S D -> BArgs -> RI) (i : imm S D) (ops : list (op D Key Q P BArgs))
+           (h : nat) (j : imm S D),
+         imm_at RI NV H2I EL VN AS S D Key Ball
+           (run RI NV H2I EL VN AS AD SP NE mk_nv mk_h2i mk_el mk_vn mk_as mk_adj mk_sparse mk_named
+              S D Key Ball Q A P R BArgs key_eqb inv_defn inv_closed mk_ball p_depth pure_op fp_depth
+              answer mk_res (init RI NV H2I EL VN AS S D Key Ball i) ops) h = 
+         Some j -> shared j = shared i.
+Proof. exact @copies_share. Qed.
+Print Assumptions C14_copies_share.
+
+(* BfsResult accessors (vertex names, edge list, adjacency ...) in any order return the pure function of the result; the cache-coherence invariant holds *)
+Theorem C14_accessors_any_order :
+  forall (RI NV H2I EL VN AS AD SP NE : Type) (mk_nv : RI -> result NV)
+           (mk_h2i : RI -> NV -> result H2I) (mk_el : RI -> H2I -> result EL)
+           (mk_vn : RI -> result VN) (mk_as : RI -> result AS) (mk_adj : RI -> NV -> EL -> AD)
+           (mk_sparse : RI -> EL -> NV -> SP) (mk_named : RI -> VN -> EL -> NE) 
+           (ri : RI) (before : list acc) (a : acc),
+         snd
+           (acc_step RI NV H2I EL VN AS AD SP NE mk_nv mk_h2i mk_el mk_vn mk_as mk_adj mk_sparse
+              mk_named
+              (acc_run RI NV H2I EL VN AS AD SP NE mk_nv mk_h2i mk_el mk_vn mk_as mk_adj mk_sparse
+                 mk_named (rfresh RI NV H2I EL VN AS ri) before) a) =
+         spec_acc RI NV H2I EL VN AS AD SP NE mk_nv mk_h2i mk_el mk_vn mk_as mk_adj mk_sparse
+           mk_named ri a /\
+         snd
+           (acc_step RI NV H2I EL VN AS AD SP NE mk_nv mk_h2i mk_el mk_vn mk_as mk_adj mk_sparse
+              mk_named
+              (acc_run RI NV H2I EL VN AS AD SP NE mk_nv mk_h2i mk_el mk_vn mk_as mk_adj mk_sparse
+                 mk_named (rfresh RI NV H2I EL VN AS ri) before) a) =
+         snd
+           (acc_step RI NV H2I EL VN AS AD SP NE mk_nv mk_h2i mk_el mk_vn mk_as mk_adj mk_sparse
+              mk_named (rfresh RI NV H2I EL VN AS ri) a) /\
+         r_imm RI NV H2I EL VN AS
+           (acc_run RI NV H2I EL VN AS AD SP NE mk_nv mk_h2i mk_el mk_vn mk_as mk_adj mk_sparse
+              mk_named (rfresh RI NV H2I EL VN AS ri) before) = ri /\
+         RInv RI NV H2I EL VN AS mk_nv mk_h2i mk_el mk_vn mk_as
+           (acc_run RI NV H2I EL VN AS AD SP NE mk_nv mk_h2i mk_el mk_vn mk_as mk_adj mk_sparse
+              mk_named (rfresh RI NV H2I EL VN AS ri) before).
+Proof. exact @accessors_any_order. Qed.
+Print Assumptions C14_accessors_any_order.
+
+(* connected to the concrete model: every reachable copy hashes every state like impl_of d *)
+Theorem C14_reachable_objects_hash_like_origin :
+  forall (RI NV H2I EL VN AS AD SP NE : Type) (mk_nv : RI -> result NV)
+           (mk_h2i : RI -> NV -> result H2I) (mk_el : RI -> H2I -> result EL)
+           (mk_vn : RI -> result VN) (mk_as : RI -> result AS) (mk_adj : RI -> NV -> EL -> AD)
+           (mk_sparse : RI -> EL -> NV -> SP) (mk_named : RI -> VN -> EL -> NE)
+           (Key Ball Q A P R BArgs : Type) (key_eqb : Key -> Key -> bool),
+         (forall a b : Key, key_eqb a b = true <-> a = b) ->
+         forall (inv_defn : gdesc -> gdesc) (inv_closed : cimm -> bool)
+           (mk_ball : cimm -> Key -> Ball) (p_depth : cimm -> P -> nat)
+           (pure_op : cimm -> list cimm -> P -> R) (fp_depth : cimm -> Key -> Q -> nat)
+           (answer : cimm -> cimm -> list cimm -> Ball -> Q -> A) (mk_res : cimm -> BArgs -> RI)
+           (d : gdesc) (ops : list (op gdesc Key Q P BArgs)) (h : nat) (j : imm cshared gdesc),
+         imm_at RI NV H2I EL VN AS cshared gdesc Key Ball
+           (run RI NV H2I EL VN AS AD SP NE mk_nv mk_h2i mk_el mk_vn mk_as mk_adj mk_sparse mk_named
+              cshared gdesc Key Ball Q A P R BArgs key_eqb inv_defn inv_closed mk_ball p_depth
+              pure_op fp_depth answer mk_res
+              (init RI NV H2I EL VN AS cshared gdesc Key Ball (embed d)) ops) h = 
+         Some j -> forall s : state, hash_of_shared (shared j) s = hashf (impl_of d) s.
+Proof. exact @reachable_objects_hash_like_origin. Qed.
+Print Assumptions C14_reachable_objects_hash_like_origin.
